@@ -164,16 +164,24 @@ func (f *csFake) serve() {
 		case strings.HasPrefix(up, "EHLO"), strings.HasPrefix(up, "LHLO"):
 			switch d.E {
 			case "250":
-				var sb strings.Builder
-				sb.WriteString("250-fake.test\r\n")
+				// the greeting line, then one line per keyword; an empty set is a bare
+				// single-line reply (an empty extension map, not "no change")
+				ls := []string{"fake.test"}
 				for _, e := range d.Es {
 					if e == "SIZE" {
 						e = "SIZE 1000"
 					}
-					sb.WriteString("250-" + e + "\r\n")
+					ls = append(ls, e)
 				}
-				sb.WriteString("250 HELP\r\n")
-				f.end.Write([]byte(strings.Replace(sb.String(), "250 HELP\r\n", "250 PIPELINING\r\n", 1)))
+				var sb strings.Builder
+				for i, l := range ls {
+					if i == len(ls)-1 {
+						sb.WriteString("250 " + l + "\r\n")
+					} else {
+						sb.WriteString("250-" + l + "\r\n")
+					}
+				}
+				f.end.Write([]byte(sb.String()))
 			case "-", "":
 				unexpected()
 				f.end.Write([]byte("250 fake.test\r\n"))
